@@ -12,6 +12,9 @@ class NoLen(Exception):
     pass
 
 
+ENGINE = None          # set by the caller that needs closures applied (sum over a map)
+
+
 def _strip(t):
     while t.tag in ('mut', 'via') and True:
         if t.tag == 'mut':
@@ -25,6 +28,9 @@ def _strip(t):
 INVARIANTS = [
     # RangeWitness::init: every opening has `extension_degree` blinding factors
     (re.compile(r'^len\(each\((.+)\.openings\)\.r\)$'), r'\1.extension_degree'),
+    # RangeStatement::init: one promise slot per commitment
+    (re.compile(r'^len\((.+)\.minimum_value_promises\)$'), r'len(\1.commitments)'),
+    (re.compile(r'^len\((.+)\.commitments_compressed\)$'), r'len(\1.commitments)'),
 ]
 
 
@@ -70,6 +76,15 @@ def ival(t, depth=0):
             return padd(ival(t[2][0], depth + 1), ival(t[2][1], depth + 1), -1)
         if nm == 'len' and len(t[2]) == 1:
             return clen(t[2][0], depth + 1)
+        if nm == 'sum' and len(t[2]) == 1 and _strip(t[2][0]).tag == 'map' and ENGINE is not None:
+            m0 = _strip(t[2][0])
+            cl = m0[2]
+            while cl.tag == 'mut':
+                cl = cl[1]
+            if cl.tag == 'closure':
+                return sum_over(ENGINE, m0[1], cl)
+        if nm == 'size_of' and not t[2]:
+            raise NoLen('size_of of an unknown type')
         if nm in ('try_from', 'from', 'into', 'try_into') and len(t[2]) == 1:
             return ival(t[2][0], depth + 1)
     return atom(canon(t))
@@ -110,9 +125,34 @@ def clen(t, depth=0):
         lo = ival(r[1], depth + 1)
         hi = clen(t[1], depth + 1) if (r[2].tag == 'const' and r[2][1] is None) else ival(r[2], depth + 1)
         return padd(hi, lo, -1)
+    if k == 'call':
+        m = re.search(r'<impl (u|i)(8|16|32|64|128)>::to_(le|be|ne)_bytes$', t[1])
+        if m:
+            return const(int(m.group(2)) // 8)
+        if t[1].endswith('Scalar::as_bytes') or t[1].endswith('Scalar::to_bytes') or t[1].endswith('as_fixed_bytes'):
+            return const(32)
     if k in ('param', 'field', 'elem', 'elemat', 'upvar', 'call'):
         return atom('len(%s)' % canon(t))
     raise NoLen('collection ' + k)
+
+
+def ge0(p):
+    """sufficient test for p >= 0 when every atom is a non-negative quantity: no negative coefficient"""
+    return all(c >= 0 for c in p.values())
+
+
+def sum_over(eng, coll, closure):
+    """sum(map(coll, closure)) when the closure's value does not depend on the element after the type invariants: len(coll) * value"""
+    from bpsa.terms import mk_elem, T, walk
+    el = mk_elem(eng, coll)
+    v = ival(eng.apply(closure, (el,)))
+    # element-independent?  no atom may mention the element
+    ce = canon(el)
+    for mono in v:
+        for a in mono:
+            if ce in a:
+                raise NoLen('summand depends on the element: %s' % a)
+    return pmul(clen(coll), v)
 
 
 def icount(it, depth=0):
@@ -136,6 +176,10 @@ def icount(it, depth=0):
         return {m: co // cc for m, co in total.items()}
     if t.tag in ('map', 'enumerate'):
         return icount(t[1], depth + 1)
+    if t.tag == 'range' and not (t[2].tag == 'const' and t[2][1] is None):
+        return padd(ival(t[2], depth + 1), ival(t[1], depth + 1), -1)
+    if t.tag == 'adapt' and t[1] == 'take' and len(t.args) >= 3:
+        return ival(t[3], depth + 1)           # an upper bound, which is what a capacity argument needs
     if t.tag == 'adapt' and t[1] in ('copied', 'cloned', 'rev', 'by_ref'):
         return icount(t[2], depth + 1)
     return clen(it, depth + 1)
